@@ -18,15 +18,15 @@ TARGETS = [
     ("include/photospline/detail/bspline_multi.h", ["C02", "C03"], None),
     ("src/core/bspline.cpp", ["C02", "C01", "C09"], None),
     ("include/photospline/detail/fitsio.h", ["C06", "C07", "C08", "C19"], None),
-    ("include/photospline/detail/aux.h", ["C16", "C06"], None),
+    ("include/photospline/detail/aux.h", ["C16", "C06", "C20"], None),
     ("include/photospline/detail/convolve.h", ["C14", "C20"], None),
     ("src/core/convolve.cpp", ["C14"], None),
     ("include/photospline/detail/permute.h", ["C15", "C20"], None),
-    ("include/photospline/detail/grideval.h", ["C17"], None),
+    ("include/photospline/detail/grideval.h", ["C17", "C18"], None),
     ("include/photospline/detail/fit.h", ["C13", "C09", "C10"], None),
-    ("src/fitter/glam.c", ["C09", "C10", "C13"], None),
-    ("src/fitter/splineutil.c", ["C17", "C09", "C10"], None),
-    ("src/fitter/nnls.c", ["C11", "C10"], None),
+    ("src/fitter/glam.c", ["C09", "C10", "C13", "C18"], None),
+    ("src/fitter/splineutil.c", ["C17", "C09", "C10", "C18"], None),
+    ("src/fitter/nnls.c", ["C11", "C10", "C18"], None),
     ("src/fitter/cholesky_solve.c", ["C12", "C11"], (700, 1151)),
     ("src/cinter/splinetable.cpp", ["C18"], None),
     ("include/photospline/splinetable.h", ["C20", "C18", "C06"], (600, 884)),
@@ -85,7 +85,7 @@ def gen(outdir):
 
 def run(outdir, worker, nworkers, stride):
     rows = [l.rstrip("\n").split("\t") for l in open(os.path.join(outdir, "index.tsv"))]
-    rows = rows[::stride]
+    rows = rows[int(os.environ.get("MUT_OFFSET", "0"))::stride]
     mine = [r for k, r in enumerate(rows) if k % nworkers == worker]
     W = tempfile.mkdtemp(prefix="ps-mutc-", dir="/var/tmp")
     subprocess.check_call(["git", "-C", REPO, "worktree", "add", "-q", "--detach", W, "HEAD"])
